@@ -3537,6 +3537,37 @@ def call_spelling(tree, modname):
   ref = table.get(modname) or {}
   sigs = callee_signatures(tree)
   count = 0
+  # keyword arguments follow a renamed parameter: f(.., new_name=v) is written with the reference name of that position
+  names_tbl = (_load_table() or {}).get(modname) or {}
+  ref_params = {}
+  for q, entries in names_tbl.items():
+    ps = [nm for nm, fp in sorted(((nm, fp) for nm, fp in entries if fp.startswith('param:')), key=lambda x: int(x[1].split(':')[1]))]
+    simple = q.rsplit('.', 1)[1]
+    depth = q.count('.')
+    for key in ((simple,) if depth == 1 else ('.' + simple,) if depth == 2 else ()):
+      ref_params.setdefault(key, []).append(ps)
+  renamed = {}
+  for key, cur_ps in sigs.items():
+    cands = ref_params.get(key) or []
+    if len(cands) != 1:
+      continue
+    rp = cands[0]
+    if key.startswith('.') and rp and rp[0] in ('self', 'cls'):
+      rp = rp[1:]
+    if len(rp) == len(cur_ps) and rp != cur_ps:
+      renamed[key] = dict(zip(cur_ps, rp))
+      sigs[key] = rp
+  if renamed:
+    for n in ast.walk(tree):
+      if isinstance(n, ast.Call):
+        f_ = n.func
+        key = f_.id if isinstance(f_, ast.Name) else ('.' + f_.attr if isinstance(f_, ast.Attribute) and isinstance(f_.value, ast.Name) and f_.value.id in ('self', 'cls') else None)
+        mp = renamed.get(key)
+        if mp:
+          for k in n.keywords:
+            if k.arg in mp:
+              k.arg = mp[k.arg]
+              count += 1
   for n in ast.walk(tree):
     if not isinstance(n, ast.Call):
       continue
